@@ -3,6 +3,7 @@ import GMGDriver.LinalgDrv
 import GMGDriver.ObjectsDrv
 import GMGDriver.OpsDrv
 import GMGDriver.TransferDrv
+import GMGDriver.TraceDrv
 
 def main (args : List String) : IO UInt32 := do
   match args with
@@ -12,6 +13,7 @@ def main (args : List String) : IO UInt32 := do
   | ["objects"] => ObjectsDrv.main
   | ["residual"] => OpsDrv.residualMain
   | ["transfer"] => TransferDrv.main
+  | ["trace"] => TraceDrv.main
   | _ => do
     IO.eprintln "usage: gmgdriver <grid|tridiag|lu|...>  (reads the harness line protocol on stdin)"
     return 2
